@@ -384,14 +384,20 @@ fn main() {
             let sp = Space { kinds: kinds_q, combos: combos_covering(), max_records: 2, reduced: true, scratch: dir.path().to_path_buf() };
             ctx.harness(Config::new("query_le2_reduced", 0), |ch| body(ch, &sp));
         } else {
-            // thorough: full alphabets, <= 2 records, every index kind, the four covering combinations ...
-            let sp = Space { kinds: kinds_t.clone(), combos: combos_covering(), max_records: 2, reduced: false, scratch: dir.path().to_path_buf() };
+            // thorough (sized for <= 15 min on 16 cores):
+            // (A) full alphabets, <= 2 records, the (14,5) index kinds, the four covering combinations ...
+            let kinds_a = vec![Kind::BamBai, Kind::BcfCsi, Kind::VcfTabix, Kind::BamBinned(14, 5), Kind::VcfBinned(14, 5)];
+            let sp = Space { kinds: kinds_a, combos: combos_covering(), max_records: 2, reduced: false, scratch: dir.path().to_path_buf() };
             ctx.harness(Config::new("query_le2_full", 0), |ch| body(ch, &sp));
-            // ... every layout x container pair on the scaled-down alphabets for the three file-format indexers ...
+            // (B) every layout x container pair on the scaled-down alphabets for the three file-format indexers ...
             let main_kinds = vec![Kind::BamBai, Kind::BcfCsi, Kind::VcfTabix];
             let sp = Space { kinds: main_kinds, combos: combos_pairs(), max_records: 2, reduced: true, scratch: dir.path().to_path_buf() };
             ctx.harness(Config::new("query_le2_reduced_all_layouts", 0), |ch| body(ch, &sp));
-            // ... and <= 3 records on the scaled-down alphabets (two multi-reference combinations).
+            // (C) the non-default geometries (binned and linear) on their own scaled-down alphabets ...
+            let kinds_c: Vec<Kind> = kinds_t.iter().copied().filter(|k| k.geometry() != (14, 5)).collect();
+            let sp = Space { kinds: kinds_c, combos: combos_covering(), max_records: 2, reduced: true, scratch: dir.path().to_path_buf() };
+            ctx.harness(Config::new("query_le2_reduced_geometries", 0), |ch| body(ch, &sp));
+            // (D) <= 3 records on the scaled-down alphabets (two multi-reference combinations).
             let kinds3 = vec![Kind::BamBai, Kind::BcfCsi, Kind::VcfTabix, Kind::BamBinned(3, 2)];
             let sp = Space { kinds: kinds3, combos: vec![(1, 1, 2), (2, 2, 1)], max_records: 3, reduced: true, scratch: dir.path().to_path_buf() };
             ctx.harness(Config::new("query_le3_reduced", 0), |ch| body(ch, &sp));
